@@ -20,6 +20,7 @@ ROOT = os.path.dirname(os.path.dirname(os.path.dirname(os.path.abspath(__file__)
 F_D12 = 'D12'
 F_STOPHDR = 'C03-stoploss-header'
 F_OVERLAP = 'C03-superfluous-id'
+F_BUBBLE = 'C03-bubble-omitted-id'
 
 def sizes(ctx):
     if ctx.quick:
@@ -85,53 +86,78 @@ def _pairwise_ok(rs):
     return all(a['e'] <= b['s'] for k, a in enumerate(rs) for b in rs[k + 1:])
 
 def classify_entry(ev, tx_id, x, recs, p, ids_idx):
-    """finding id for a header entry that is not a witness.
-      C03-superfluous-id   a proper subset of the named records is a witness: the entry over-reports
-                           (it names records that overlap each other -- no haplotype carries them
-                           together -- or an adjacent record that the peptide's haplotype does not carry)
-      D12                  the entry becomes a witness after ADDING only frameshifting records
-      C03-stoploss-header  ... after adding only records without which translation stops before the
-                           peptide (they remove the annotated stop codon or a stop in a shifted frame)
-      D14                  (exception ON) witness under the relaxed exception semantics"""
+    """finding id for a header entry that is not a witness.  The smallest repair (REMOVE some named records,
+    ADD at most two others) that makes the entry a witness is looked for; the finding is decided by what
+    had to be added / removed:
+      D14 / D14b            the entry IS a witness under the relaxed reading of exception-suppressed /
+                            look-behind-dependent sites (the peptide itself stems from those defects)
+      D12                   an added record is a frameshifting indel
+      C03-stoploss-header   an added record is one without which translation stops before the peptide
+                            (it removes the annotated stop codon or a stop in a shifted frame)
+      C03-bubble-omitted-id an added record lies within 6 nt of a named record (same variant bubble)
+      C03-superfluous-id    nothing had to be added: a proper subset of the named records is the witness
+                            (the entry names records that overlap each other, or an adjacent record the
+                            peptide's haplotype does not carry)
+    anything else (an added record of none of these kinds, or no repair) is a violation."""
     exc_on = ev.run['exc'] != 'None'
-    api = 'cv_witness'
     if exc_on and O.call('cv_witness_relaxed', [x, [[p, ids_idx]]])[0]:
         return CK.F_D14
-    if len(ids_idx) > 1:
-        subs = [list(cb) for n in range(1, len(ids_idx)) for cb in itertools.combinations(ids_idx, n)
-                if _pairwise_ok([recs[i] for i in cb])]
-        if subs:
-            oks = O.call('cv_witness_relaxed' if exc_on else 'cv_witness', [x, [[p, sb] for sb in subs]])
-            if any(oks):
-                return F_OVERLAP
-    if not _pairwise_ok([recs[i] for i in ids_idx]):
+    if O.call('cv_witness_relaxed2', [x, [[p, ids_idx]]])[0]:
+        return CK.F_PEPSIN
+    others = [i for i in range(len(recs)) if i not in ids_idx]
+    subsets = [list(cb) for n in range(len(ids_idx), 0, -1) for cb in itertools.combinations(ids_idx, n)]
+    adds = [[]] + [list(cb) for n in (1, 2) for cb in itertools.combinations(others, n)]
+    cands = []
+    for A in adds:
+        for S in subsets:
+            full = sorted(S + A)
+            if _pairwise_ok([recs[i] for i in full]):
+                cands.append((len(A), len(ids_idx) - len(S), S, A, full))
+    cands.sort(key=lambda c: (c[0], c[1]))
+    found = None
+    for api in (['cv_witness'] + (['cv_witness_relaxed'] if exc_on else []) + ['cv_witness_relaxed2']):
+        if not cands:
+            break
+        oks = O.call(api, [x, [[p, c[4]] for c in cands]])
+        hit = [c for c, ok in zip(cands, oks) if ok]
+        if hit:
+            found = (api, hit[0]); break
+    if not found:
         return None
-    ce = CK._cds_end(ev.case, tx_id)
-    relaxed = False
-    added = complete_header(x, recs, p, ids_idx, ce)
-    if added is None and exc_on:
-        added = complete_header(x, recs, p, ids_idx, ce, relaxed=True)
-        relaxed = True
-    if added is None:
-        return None
-    full = sorted(ids_idx + added)
+    api, (na, nr, S, A, full) = found
+    if not A:
+        return F_OVERLAP if api == 'cv_witness' else (CK.F_D14 if api == 'cv_witness_relaxed' else CK.F_PEPSIN)
     ws = [w for w in SG.decode_wits(O.call('cv_may_witnesses', [x, p]), recs)
-          if sorted(recs.index(r) for r in w['H']) == full]
-    if not ws:
-        return CK.F_D14 if relaxed else None
-    w = ws[0]
+          if sorted(recs.index(r) for r in w['H']) == full] if api == 'cv_witness' else []
     kinds = []
-    for i in added:
+    for i in A:
         r = recs[i]
         if (len(r['alt']) - (r['e'] - r['s'])) % 3 != 0:
             kinds.append('fs'); continue
-        mask = [1 if (k in full and k != i) else 0 for k in range(len(recs))]
-        aas = O.U(O.call('cv_translate_at', [x, mask, w['start']]))
-        kinds.append('stop' if (len(aas) < len(w['aas']) and len(aas) <= w['a']) else None)
+        g_, t_ = CK._tx_of(ev.case, tx_id)
+        if ws or t_['cds']:
+            rest = [k for k in full if k != i]
+            if ws:
+                start, whole_len, limit = ws[0]['start'], len(ws[0]['aas']), ws[0]['a']
+            else:   # witness only under a relaxed reading: compare the translations from the annotated start
+                start = SG.shift([recs[k] for k in full], t_['cds'][0])
+                whole_len = len(O.call('cv_translate_at', [x, [1 if k in full else 0 for k in range(len(recs))], start]))
+                limit = whole_len
+                start = SG.shift([recs[k] for k in rest], t_['cds'][0])
+            aas = O.U(O.call('cv_translate_at', [x, [1 if k in rest else 0 for k in range(len(recs))], start]))
+            if len(aas) < whole_len and len(aas) <= limit:
+                kinds.append('stop'); continue
+        if any(r['s'] - 6 <= recs[k]['e'] and recs[k]['s'] <= r['e'] + 6 for k in ids_idx):
+            kinds.append('near'); continue
+        kinds.append(None)
     if None in kinds:
         return None
-    if relaxed:
+    if api == 'cv_witness_relaxed':
         return CK.F_D14
+    if api == 'cv_witness_relaxed2':
+        return CK.F_PEPSIN
+    if 'near' in kinds:
+        return F_BUBBLE
     return F_D12 if 'fs' in kinds else F_STOPHDR
 
 def classify_alt_entry(ev, tx_id, x, recs, p, ids_idx, sect, w2f):
